@@ -531,7 +531,146 @@ def rule_refs(ctx):
     return rr
 
 
+INT_CALLS = {'builtins.int', 'math.floor', 'math.ceil', 'math.trunc',
+             'numpy.random.randint', 'random.randint', 'random.randrange',
+             'numpy.floor', 'numpy.ceil', 'numpy.rint', 'numpy.trunc',
+             'numpy.fix', 'builtins.len'}
+FLOAT_CALLS = {'numpy.random.rand', 'numpy.random.random', 'random.random',
+               'random.uniform', 'numpy.random.uniform', 'builtins.float',
+               'numpy.random.random_sample', 'numpy.random.ranf'}
+HALF_OPEN_RANDINT = {'numpy.random.randint', 'random.randrange'}
+
+
+def _kind(ctx, f, e, env):
+    """'int' | 'float' | '?' - whether the value of e is integral by construction."""
+    if isinstance(e, ast.Constant):
+        if isinstance(e.value, bool):
+            return '?'
+        if isinstance(e.value, int):
+            return 'int'
+        if isinstance(e.value, float):
+            return 'int' if e.value.is_integer() else 'float'
+        return '?'
+    if isinstance(e, ast.Name):
+        return env.get(e.id, '?')
+    if isinstance(e, ast.UnaryOp) and isinstance(e.op, (ast.USub, ast.UAdd)):
+        return _kind(ctx, f, e.operand, env)
+    if isinstance(e, ast.BinOp):
+        l, r = _kind(ctx, f, e.left, env), _kind(ctx, f, e.right, env)
+        if isinstance(e.op, ast.FloorDiv):
+            return 'int' if 'float' not in (l, r) or True else '?'
+        if isinstance(e.op, ast.Div):
+            return 'float'
+        if isinstance(e.op, (ast.Add, ast.Sub, ast.Mult)):
+            if 'float' in (l, r):
+                return 'float'
+            return 'int' if l == r == 'int' else '?'
+        return '?'
+    if isinstance(e, ast.Call):
+        r = ctx.cg.resolve_name_expr(f, e.func) if isinstance(
+            e.func, (ast.Name, ast.Attribute)) else None
+        name = r[1] if r and r[0] == 'ext' else None
+        if name is None and isinstance(e.func, ast.Name) and \
+                e.func.id in ('int', 'round', 'float', 'len'):
+            name = 'builtins.' + e.func.id
+        if name in INT_CALLS:
+            return 'int'
+        if name == 'builtins.round':
+            return 'int' if len(e.args) == 1 and not e.keywords else 'float'
+        if name in FLOAT_CALLS:
+            return 'float'
+        return '?'
+    if isinstance(e, ast.IfExp):
+        a, b = _kind(ctx, f, e.body, env), _kind(ctx, f, e.orelse, env)
+        return a if a == b else ('float' if 'float' in (a, b) else '?')
+    return '?'
+
+
+def rule_randint(ctx):
+    rr = RuleResult('C13', 'C13.randint', 'KIND',
+                    'RANDBETWEEN draws an integer, both bounds attainable',
+                    floor=1)
+    reg = ctx.registry.functions.get('RANDBETWEEN')
+    if reg is None or reg.core.kind != 'func':
+        raise AnalysisError('RANDBETWEEN core not found')
+    f = reg.core.fi
+    rr.instances += 1
+    # straight-line kind environment: names assigned at the top level of the
+    # function, in order; a return sees the assignments before it
+    env = {}
+    verdicts = []
+
+    def walk(stmts, env):
+        for st in stmts:
+            if isinstance(st, ast.Assign):
+                pairs = []
+                for t in st.targets:
+                    if isinstance(t, ast.Tuple) and isinstance(
+                            st.value, ast.Tuple) and len(t.elts) == len(
+                            st.value.elts):
+                        pairs += list(zip(t.elts, st.value.elts))
+                    else:
+                        pairs.append((t, st.value))
+                new = {}
+                for t, v in pairs:
+                    if isinstance(t, ast.Name):
+                        new[t.id] = _kind(ctx, f, v, env)
+                env.update(new)
+            elif isinstance(st, ast.If):
+                walk(st.body, dict(env))
+                walk(st.orelse, dict(env))
+            elif isinstance(st, ast.Return) and st.value is not None:
+                t = norm_src(st.value)
+                if 'errors[' in t:
+                    continue
+                verdicts.append((st, _kind(ctx, f, st.value, env)))
+
+    walk(f.body, env)
+    if not verdicts:
+        raise AnalysisError('%s: no value-returning path' % f.qualname)
+    bad = [(st, k) for st, k in verdicts if k == 'float']
+    unk = [(st, k) for st, k in verdicts if k == '?']
+    if bad:
+        st = bad[0][0]
+        rr.fail(key_of(f, 'result is not integral'),
+                '%s returns `%s`: a real number obtained from a uniform draw '
+                'in [0, 1) without rounding to an integer, so RANDBETWEEN does '
+                'not return an integer' % (f.qualname, norm_src(st.value)),
+                file=f.module.rel, function=f.qualname, line=st.lineno)
+    elif unk:
+        raise AnalysisError('%s: cannot tell whether `%s` is integral' % (
+            f.qualname, norm_src(unk[0][0].value)))
+    else:
+        rr.ok('every value %s returns is integral by construction (%s)' % (
+            f.qualname, '; '.join(norm_src(st.value) for st, _ in verdicts)),
+            '%s:%d' % (f.module.rel, f.lineno))
+    # a half-open integer draw needs `top + 1` to make the upper bound attainable
+    for n in own_nodes(f):
+        if isinstance(n, ast.Call) and isinstance(n.func, (ast.Name,
+                                                           ast.Attribute)):
+            r = ctx.cg.resolve_name_expr(f, n.func)
+            if r and r[0] == 'ext' and r[1] in HALF_OPEN_RANDINT and \
+                    len(n.args) >= 2:
+                rr.instances += 1
+                hi = n.args[1]
+                plus1 = isinstance(hi, ast.BinOp) and isinstance(
+                    hi.op, ast.Add) and any(
+                    isinstance(x, ast.Constant) and x.value == 1
+                    for x in (hi.left, hi.right))
+                if plus1:
+                    rr.ok('half-open draw `%s` adds one to the upper bound' %
+                          norm_src(n), '%s:%d' % (f.module.rel, n.lineno))
+                else:
+                    rr.fail(key_of(f, 'upper bound not attainable'),
+                            '%s draws with `%s`, whose upper limit is '
+                            'exclusive: the upper bound of RANDBETWEEN is '
+                            'never returned' % (f.qualname, norm_src(n)),
+                            file=f.module.rel, function=f.qualname,
+                            line=n.lineno)
+    return rr
+
+
 def run(ctx):
     r1, reaching, reach = rule_impure(ctx)
     return [r1, rule_mask(ctx), rule_nomemo(ctx, reaching, reach),
-            rule_sites(ctx), rule_refs(ctx)]
+            rule_sites(ctx), rule_refs(ctx), rule_randint(ctx)]
